@@ -53,6 +53,8 @@ CfgDef == [ ebgp   |-> [ibgp |-> FALSE, hold |-> 90, role |-> "none",     strict
             ebgpA  |-> [ibgp |-> FALSE, hold |-> 90, role |-> "none",     strict |-> FALSE, addpath |-> FALSE, rrc |-> "no", other |-> FALSE, active |-> TRUE, v6only |-> FALSE],
             ibgpA  |-> [ibgp |-> TRUE,  hold |-> 90, role |-> "none",     strict |-> FALSE, addpath |-> FALSE, rrc |-> "no", other |-> FALSE, active |-> TRUE, v6only |-> FALSE],
             apA    |-> [ibgp |-> FALSE, hold |-> 90, role |-> "none",     strict |-> FALSE, addpath |-> TRUE,  rrc |-> "no", other |-> FALSE, active |-> TRUE, v6only |-> FALSE],
+            \* add-path send is configured (several paths per prefix), add-path receive is not
+            apTx   |-> [ibgp |-> FALSE, hold |-> 90, role |-> "none",     strict |-> FALSE, addpath |-> FALSE, rrc |-> "no", other |-> FALSE, active |-> FALSE, v6only |-> FALSE],
             \* only the IPv6 address family is configured for the peer
             ap6A   |-> [ibgp |-> FALSE, hold |-> 90, role |-> "none",     strict |-> FALSE, addpath |-> TRUE,  rrc |-> "no", other |-> FALSE, active |-> TRUE, v6only |-> TRUE],
             ap6    |-> [ibgp |-> FALSE, hold |-> 90, role |-> "none",     strict |-> FALSE, addpath |-> TRUE,  rrc |-> "no", other |-> FALSE, active |-> FALSE, v6only |-> TRUE] ]
@@ -83,11 +85,14 @@ OpenDef == [ ok        |-> O("cfg", "cfg", "ok", 90, "none", 4),
              version3  |-> O("cfg", "cfg", "ok", 90, "none", 3),
              roleProv  |-> O("cfg", "cfg", "ok", 90, "provider", 4),
              roleCust  |-> O("cfg", "cfg", "ok", 90, "customer", 4),
-             rolePeer  |-> O("cfg", "cfg", "ok", 90, "peer", 4) ]
+             rolePeer  |-> O("cfg", "cfg", "ok", 90, "peer", 4),
+             rolesCPP  |-> O("cfg", "cfg", "ok", 90, "multi", 4),               \* three role capabilities: customer, provider, provider
+             okAP3     |-> O("cfg", "cfg", "ok", 90, "none", 4),                 \* as ok, the add-path capability says send and receive (3)
+             hold6     |-> O("cfg", "cfg", "ok", 6, "none", 4) ]
 
 (* RFC 9234: compatible role pairs *)
-RolesOK(l, r) == \/ l = "none" \/ r = "none"
-                 \/ <<l, r>> \in {<<"provider", "customer">>, <<"customer", "provider">>, <<"rs", "rsclient">>, <<"rsclient", "rs">>, <<"peer", "peer">>}
+RolesOK(l, r) == r # "multi" /\ (\/ l = "none" \/ r = "none"
+                 \/ <<l, r>> \in {<<"provider", "customer">>, <<"customer", "provider">>, <<"rs", "rsclient">>, <<"rsclient", "rs">>, <<"peer", "peer">>})
 
 (* the verdict on an OPEN: <<code, subcode>> of the NOTIFICATION, or <<0, 0>> = acceptable *)
 ResolvedAS(o) == IF o.as = "trans" THEN (IF o.as4 = "cfg" THEN "cfg" ELSE IF o.as4 = "none" THEN "trans" ELSE "other")
@@ -122,6 +127,7 @@ UpdDef == [ annA      |-> U(TRUE, {N("a", 0)}, {}, {}),
             annAcomm    |-> U(TRUE, {N("a", 0)}, {}, {}),
             wdA       |-> U(TRUE, {}, {N("a", 0)}, {}),
             wdAannB   |-> U(TRUE, {N("b", 0)}, {N("a", 0)}, {}),
+            wdAannA   |-> U(TRUE, {N("a", 0)}, {N("a", 0)}, {}),               \* the same prefix withdrawn and announced: the announcement counts (RFC 4271 4.3)
             wdC6      |-> U(TRUE, {}, {N("c6", 0)}, {}),
             annD6wdC6 |-> U(TRUE, {N("d6", 0)}, {N("c6", 0)}, {}),             \* MP_REACH_NLRI and MP_UNREACH_NLRI in one UPDATE
             annC6D6   |-> U(TRUE, {N("c6", 0), N("d6", 0)}, {}, {}),
@@ -143,6 +149,7 @@ UpdDef == [ annA      |-> U(TRUE, {N("a", 0)}, {}, {}),
             originLen2    |-> U(FALSE, {N("a", 0)}, {}, {5}),                  \* ORIGIN declared with length 2
             nextHopLen3   |-> U(FALSE, {N("a", 0)}, {}, {5}),
             medLen5       |-> U(FALSE, {N("a", 0)}, {}, {5}),
+            medLen5ext    |-> U(FALSE, {N("a", 0)}, {}, {5}),                  \* the same with the extended-length flag (two length bytes)
             asPathTrunc   |-> U(FALSE, {N("a", 0)}, {}, {11, 5}),
             pfxLen33      |-> U(FALSE, {N("a", 0)}, {}, {10}),                 \* IPv4 NLRI with prefix length 33
             pfxLen129     |-> U(FALSE, {N("c6", 0)}, {}, {10, 9}),             \* IPv6 NLRI with prefix length 129
@@ -175,12 +182,17 @@ ApOf(h) == IF h = <<>> THEN FALSE ELSE h[Len(h)].ap
 ApAfter(r) == IF r.a = "Connect" THEN FALSE
               ELSE IF r.a = "RecvOpen" THEN (st' = "OpenConfirm" /\ L.addpath /\ r.o \notin NoAP)
               ELSE IF st' \in {"Idle", "none"} THEN FALSE ELSE ApOf(hist)
-LogP(r) == hist' = Append(hist, r @@ [s |-> St, ap |-> ApAfter(r)])
+(* which OPEN class the current connection was opened with (what it negotiated lives in the real FSM, not in the abstract state) *)
+LoOf(h) == IF h = <<>> THEN "none" ELSE h[Len(h)].lo
+LoAfter(r) == IF r.a = "Connect" THEN "none"
+              ELSE IF r.a = "RecvOpen" THEN (IF st' = "OpenConfirm" THEN r.o ELSE "none")
+              ELSE IF st' \in {"Idle", "none"} THEN "none" ELSE LoOf(hist)
+LogP(r) == hist' = Append(hist, r @@ [s |-> St, ap |-> ApAfter(r), lo |-> LoAfter(r)])
 Log(r) == UNCHANGED pol /\ LogP(r)
 
 Init == /\ st = "none" /\ conn = "none" /\ attached = FALSE /\ adjIn = {} /\ out = <<>> /\ hold = 0 /\ nsess = 0
         /\ pol = [imp |-> "accept", exp |-> "accept", orig |-> {}]
-        /\ hist = << [a |-> "Config", cfg |-> L, cfgname |-> LocalCfg, ap |-> FALSE,
+        /\ hist = << [a |-> "Config", cfg |-> L, cfgname |-> LocalCfg, ap |-> FALSE, lo |-> "none",
                       s |-> [st |-> "none", conn |-> "none", attached |-> FALSE, adjin |-> {}, out |-> <<>>, hold |-> 0, nsess |-> 0,
                              imp |-> "accept", exp |-> "accept", loc |-> {}, adjout |-> {}, asn |-> L.other]] >>
 
@@ -257,6 +269,12 @@ HoldExpires ==
     /\ ToIdle(<<Notif(4, 0)>>)
     /\ Log([a |-> "HoldExpires"])
 
+(* the hold timer expires and the NOTIFICATION cannot be written any more *)
+HoldExpiresNoWrite ==
+    /\ st \in {"OpenConfirm", "Established"} /\ hold # 0
+    /\ ToIdle(<<>>)
+    /\ Log([a |-> "HoldExpiresNoWrite"])
+
 (* the KEEPALIVE timer fires and the write fails *)
 WriteFails ==
     /\ st \in {"OpenConfirm", "Established"} /\ hold # 0
@@ -266,7 +284,7 @@ WriteFails ==
 (* a few seconds pass without any event: nothing happens (RFC 4271 8.2.2: in OpenSent the hold timer runs with a large value;  *)
 (* afterwards with the negotiated one, and the keepalive interval of the configurations used here is 30 s or off)                *)
 Wait ==
-    /\ st \in {"OpenSent", "OpenConfirm", "Established"} /\ (st # "OpenSent" => (hold = 0 \/ hold >= 30))
+    /\ st \in {"OpenSent", "OpenConfirm", "Established"} /\ (st # "OpenSent" => (hold = 0 \/ hold >= 6))
     /\ UNCHANGED <<st, conn, attached, adjIn, out, hold, nsess>>
     /\ Log([a |-> "Wait"])
 
@@ -301,6 +319,7 @@ Step == \/ \E p \in Pols : SetImport(p) \/ SetExport(p)
         \/ \E n \in Stops \cap DOMAIN NotifDef : RecvNotification(n)
         \/ "HoldExpires" \in Stops /\ HoldExpires
         \/ "WriteFails" \in Stops /\ WriteFails
+        \/ "HoldExpiresNoWrite" \in Stops /\ HoldExpiresNoWrite
         \/ "ConnLost" \in Stops /\ ConnLost
         \/ "Sustain" \in Stops /\ Len(hist) >= 1 /\ hist[Len(hist)].a # "Sustain" /\ Sustain
         \/ "ManualStop" \in Stops /\ ManualStop
@@ -322,6 +341,6 @@ LeavingEstablished == [][(st = "Established" /\ st' # "Established") => (adjIn' 
 ErrorsAreNotified == [][(st' = "Idle" /\ st \in {"OpenSent", "OpenConfirm", "Established"} /\ Len(out') > Len(out))
                           => out'[Len(out')].kind = "NOTIFICATION"]_vars
 
-View == <<st, conn, attached, adjIn, out, hold, nsess, pol>>
+View == <<st, conn, attached, adjIn, out, hold, nsess, pol, ApOf(hist), LoOf(hist)>>
 Emit == PrintT("BEH " \o ToJson(hist'))
 =============================================================================
